@@ -232,6 +232,8 @@ def tasks(tier, seed):
     P += families.layout_family()
     if tier != "quick":
         P += families.corpus(["lorentz.ode", "fitzhughnagumo.ode"])
+    from .. import gen
+    P += gen.programs(tier, seed, 6, 60, "std")
     out = [dict(p, opts={"mode": "graph", "both": tier != "quick", "max_cond": 4 if tier == "quick" else None,
                      "max_space": 40 if tier == "quick" else 240}) for p in P]
     out.append({"family": "SCHEME", "id": "get_scheme_history", "text": "", "opts": {"mode": "scheme"}})
